@@ -47,6 +47,8 @@ pub enum StreamMode {
     /// the scenario is over): whatever its last successful poll freed must have been announced by
     /// that poll itself, nobody comes back to an empty stream afterwards
     PollPause(u32),
+    /// the same through the direct try_recv method of a plain thread: k values, then nothing more
+    DirectPause(u32),
 }
 
 #[derive(Clone, Debug)]
@@ -176,7 +178,13 @@ pub fn gen_cfg(rng: &mut Rng, small: bool) -> FutCfg {
                         StreamMode::PollPause(1 + rng.below(3) as u32)
                     }
                 }
-                6 => StreamMode::DirectDrop(1 + rng.below(3) as u32),
+                6 => {
+                    if rng.chance(1, 2) {
+                        StreamMode::DirectDrop(1 + rng.below(3) as u32)
+                    } else {
+                        StreamMode::DirectPause(1 + rng.below(3) as u32)
+                    }
+                }
                 _ => {
                     // add_stream during traffic only on a stream whose handle is the sole one: on a
                     // parent that a sibling is consuming the call is the open finding of C10
@@ -294,7 +302,7 @@ fn probe_answer(sh: &Shared, tid: usize, progress: bool, what: &str, kind: &str,
         let has_direct = cfg
             .streams
             .iter()
-            .any(|s| s.iter().any(|c| matches!(c.0, StreamMode::Direct | StreamMode::DirectDrop(_))));
+            .any(|s| s.iter().any(|c| matches!(c.0, StreamMode::Direct | StreamMode::DirectDrop(_) | StreamMode::DirectPause(_))));
         let ctx = if kind == "stream" && seq != vh::NO_POS && tag != (usize::MAX >> 1) && (tag & mask) != (seq & mask) {
             "wrong-slot"
         } else if kind == "sink" && what == "Err(SendError)" {
@@ -428,10 +436,10 @@ fn stream_thread(mut rx: RxH, mode: StreamMode, sh: &Shared, tid: usize, cfg: &F
     }
     let mut got = 0u32;
     let quota = match mode {
-        StreamMode::PollDrop(k) | StreamMode::DirectDrop(k) | StreamMode::PollPause(k) => Some(k),
+        StreamMode::PollDrop(k) | StreamMode::DirectDrop(k) | StreamMode::PollPause(k) | StreamMode::DirectPause(k) => Some(k),
         _ => None,
     };
-    let direct = matches!(mode, StreamMode::Direct | StreamMode::DirectDrop(_));
+    let direct = matches!(mode, StreamMode::Direct | StreamMode::DirectDrop(_) | StreamMode::DirectPause(_));
     let mut add_after = match mode {
         StreamMode::PollAdd(k) => Some(k),
         _ => None,
@@ -517,7 +525,7 @@ fn stream_thread(mut rx: RxH, mode: StreamMode, sh: &Shared, tid: usize, cfg: &F
             _ => break,
         }
     }
-    if matches!(mode, StreamMode::Direct | StreamMode::PollPause(_)) {
+    if matches!(mode, StreamMode::Direct | StreamMode::PollPause(_) | StreamMode::DirectPause(_)) {
         // a direct drainer keeps its receiver (dropping it would notify the sinks and hide a
         // missing notification of the direct receive methods) until the scenario is over
         sh.state[tid].store(DONE, SeqCst);
@@ -671,7 +679,7 @@ pub fn run_once(cfg: &FutCfg, shard: &mut Shard) -> (u64, bool, bool) {
         let my = tid;
         notes[my] = Some(rx.note.clone());
         shared.state[my].store(RUNNING, SeqCst);
-        shared.is_task[my].store(!matches!(mode, StreamMode::Direct | StreamMode::DirectDrop(_) | StreamMode::DirectRecv), SeqCst);
+        shared.is_task[my].store(!matches!(mode, StreamMode::Direct | StreamMode::DirectDrop(_) | StreamMode::DirectPause(_) | StreamMode::DirectRecv), SeqCst);
         joins.push(
             std::thread::Builder::new()
                 .name(format!("fut-stream{}", my))
